@@ -110,7 +110,7 @@ def rule_arms(ctx, res, d):
     res.check(d.distinct_arms(), 'ARMS', common.HANDLE_INCOMING, 'the dispatcher has a distinct arm for each of the 4 query kinds, for responses and for errors', site=d.body.span)
 
 
-def rule_one_reply(ctx, res, d):
+def rule_one_reply(ctx, res, d, exact_values=False):
     """ONE-REPLY + ADDRESSING + FIELDS per request arm"""
     for arm in common.REQUEST_VARIANTS:
         anchor = 'handle_incoming/' + arm
@@ -152,11 +152,11 @@ def rule_one_reply(ctx, res, d):
                 kind, inner = body_of_message(m)
                 res.check(kind in ('Response', 'Error'), 'TABLE', anchor, 'reply body is a Response or an Error', site=site, detail=str(kind), key='kind:' + arm)
                 if kind == 'Response' and isinstance(inner, tuple) and inner[0] == 'agg':
-                    check_response_fields(ctx, res, arm, anchor, inner, site, p)
+                    check_response_fields(ctx, res, arm, anchor, inner, site, p, exact_values)
         res.check(n_ok >= 1, 'COUNT', anchor, 'the arm has a successful path', key='has-ok-path:' + arm)
 
 
-def check_response_fields(ctx, res, arm, anchor, r, site, p):
+def check_response_fields(ctx, res, arm, anchor, r, site, p, exact_values=False):
     f = r[2]
     rid = strip_transparent(f.get('id'))
     res.check(is_param(root_of(rid)) and root_of(rid)[1] == 1 and field_chain(rid) == ['this_node_id'], 'FLOW', anchor,
@@ -181,9 +181,12 @@ def check_response_fields(ctx, res, arm, anchor, r, site, p):
         pl = pipeline(strip_transparent(vals) if vals[0] != 'call' else vals)
         names = [x[0] for x in pl]
         src = pl[0][1]
-        ok = (names == ['src', 'filter', 'collect'] and src[0] == 'call' and src[1] == 'storage::AnnounceStorage::find_items'
+        # C05 needs: only stored peers, all through the family filter (adaptors that drop elements are harmless);
+        # C07 (exactness) needs the list to be nothing but the filtered store contents
+        shape_ok = (names == ['src', 'filter', 'collect']) if exact_values else (names[:2] == ['src', 'filter'] and names[-1] == 'collect' and all(n in ('filter', 'take', 'skip') for n in names[1:-1]))
+        ok = (shape_ok and src[0] == 'call' and src[1] == 'storage::AnnounceStorage::find_items'
               and field_chain(strip_transparent(src[2][1]))[-1:] == ['info_hash'] and is_param(root_of(strip_transparent(src[2][1])), 'message'))
-        res.check(ok, 'FLOW', anchor, 'values = find_items(query info_hash) through exactly one (family) filter', site=site, detail=str(names) + ' ' + fmt(src)[:160], key='values:' + arm)
+        res.check(ok, 'FLOW', anchor, 'values = find_items(query info_hash) through the family filter' + (' and nothing else (exactness)' if exact_values else ''), site=site, detail=str(names) + ' ' + fmt(src)[:160], key='values:' + arm)
         if ok:
             check_values_filter(ctx, res, anchor, pl[1][1], site)
         check_nodes_from_closest(ctx, res, arm, anchor, n4, n6, site, 'info_hash')
